@@ -17,9 +17,9 @@ import (
 
 	"github.com/invopop/gobl"
 	"github.com/invopop/gobl/bill"
+	"github.com/invopop/gobl/cal"
 	"github.com/invopop/gobl/cbc"
 	"github.com/invopop/gobl/head"
-	"github.com/invopop/gobl/cal"
 	"github.com/invopop/gobl/internal/cli"
 	"github.com/invopop/gobl/schema"
 )
@@ -159,7 +159,7 @@ func runItem(c *Ctx, doc, addon, op string) string {
 		case "correct-shared":
 			// callers that keep one option list and use it for every document: the list has room
 			// to spare, and each envelope carries its own stamp
-			env.Head.AddStamp(&head.Stamp{Provider: "sim-prv-a", Value: "stamp-of-" + H([]byte(doc + "|" + addon))})
+			env.Head.AddStamp(&head.Stamp{Provider: "sim-prv-a", Value: "stamp-of-" + H([]byte(doc+"|"+addon))})
 			r, err := env.Correct(sharedCorrectOpts...)
 			if err != nil {
 				out = "correct-error:" + H([]byte(err.Error()))
